@@ -35,6 +35,8 @@ def _staged(*stages):
                     continue
                 if name != 'interrupts' and level == 'tick-hang':
                     continue
+                if name == 'store' and level != 'store':
+                    continue
             before = dict(report.coverage)
             fn(prop, report, tier, seed, replay)
             stage_cov = {k: v for k, v in report.coverage.items() if before.get(k) != v or k not in before}
@@ -50,6 +52,7 @@ def _staged(*stages):
 
 
 REGISTRY['C09'] = _staged(('values', props_values.run), ('histories', props_cache.run_histories))
+REGISTRY['C08'] = _staged(('histories', props_cache.run), ('store', props_values.run_store_stage))
 REGISTRY['C17'] = _staged(('sched', props_sched.run), ('histories', props_cache.run_histories))
 REGISTRY['C03'] = _staged(('sched', props_sched.run), ('histories', props_cache.run_histories))
 REGISTRY['C01'] = _staged(('sched', props_sched.run), ('histories', props_cache.run_histories))
